@@ -435,7 +435,7 @@ theorem matchesFinal_congr (op : COp) (hop : op ≠ .compat) (x y v : Ver) (h : 
 /-- what `_normalize_python_version_specifier` may return for an atom whose text lexes to the clause
     `c`: the atom's own view, or the parse of the structured normalisation `normClause2` -/
 def NormShape (a : Atom) (c : Clause Ver) (ns : ASpec) : Prop :=
-  ns = a.spec ∨
+  (ns = a.spec ∧ (c.wild = true ∨ c.op = .compat ∨ ∃ i, 2 ≤ i ∧ nth0 c.ver.release i ≠ 0)) ∨
   ∃ A B sn, c.wild = false ∧ c.op ≠ .compat ∧ c.ver.epoch = 0 ∧ c.ver.isFinal = true ∧
     (∀ i, nth0 c.ver.release i = nth0 [A, B] i) ∧
     fromClause (normClause2 c.op A B) = some sn ∧ ns = .ver ((Spec.range {}).and sn)
@@ -452,11 +452,440 @@ def LexNormOk : Prop :=
   ∀ (c : Clause Ver) (spec ns : ASpec), FinalV c.ver → (pvAtom c spec).WF →
     normalizePythonVersion (pvAtom c spec) = some ns → NormShape (pvAtom c spec) c ns
 
+/-! ### views that do not tell `X.Y` from `X.Y.Z` -/
+
+/-- comparisons with a bound of at most two significant components -/
+theorem pv_cmp (b : Ver) (hb : Pv2 b) (X Y : Nat) (zs : List Nat) :
+    (le b (fin [X, Y]) ↔ le b (fin (X :: Y :: zs))) ∧ (lt (fin [X, Y]) b ↔ lt (fin (X :: Y :: zs)) b) := by
+  obtain ⟨⟨hf, he, _⟩, hz⟩ := hb
+  -- `b` compares like `fin [A, B]`
+  have heq : eqv b (fin [nth0 b.release 0, nth0 b.release 1]) := by
+    apply eqv_of_final_seq _ _ hf rfl (by simpa [fin] using he)
+    intro i
+    match i with
+    | 0 => simp [fin]
+    | 1 => simp [fin]
+    | i + 2 => simp [fin, hz (i + 2) (by omega)]
+  have tr := @LinPre.le_trans Ver _
+  have tot := @LinPre.le_total Ver _
+  have l1 := le_fin [nth0 b.release 0, nth0 b.release 1] [X, Y]
+  have l2 := le_fin [nth0 b.release 0, nth0 b.release 1] (X :: Y :: zs)
+  have l3 := lt_fin [X, Y] [nth0 b.release 0, nth0 b.release 1]
+  have l4 := lt_fin (X :: Y :: zs) [nth0 b.release 0, nth0 b.release 1]
+  rw [seqLt22] at l1 l3
+  rw [seqLt_full_two] at l2 l4
+  simp only [lt, eqv] at heq l3 l4 ⊢
+  constructor <;> constructor <;> intro h <;> grind
+
+/-- every range is closed below (or unbounded) and open above (or unbounded) -/
+def HalfOpenR (r : Range Ver) : Prop := (r.min = none ∨ r.incMin = true) ∧ (r.max = none ∨ r.incMax = false)
+
+def HalfOpen : Spec Ver → Prop
+  | .range r => HalfOpenR r
+  | .union rs _ => ∀ r ∈ rs, HalfOpenR r
+  | _ => True
+
+theorem pvsem_range (r : Range Ver) (hh : HalfOpenR r) (hb : r.AllVers Pv2) (X Y : Nat) (zs : List Nat) :
+    r.mem (fin [X, Y]) ↔ r.mem (fin (X :: Y :: zs)) := by
+  have tot := @LinPre.le_total Ver _
+  rcases r with ⟨m, M, i, j, t⟩
+  obtain ⟨h1, h2, _⟩ := hb
+  obtain ⟨hm, hM⟩ := hh
+  simp only at h1 h2 hm hM
+  cases m with
+  | none =>
+    cases M with
+    | none => simp [Range.mem]
+    | some b =>
+      have c := pv_cmp b (h2 b rfl) X Y zs
+      rcases hM with hM | hM
+      · cases hM
+      · subst hM
+        simp only [Range.mem, true_and, Bool.false_eq_true, and_false, or_false]
+        exact c.2
+  | some a =>
+    have ca := pv_cmp a (h1 a rfl) X Y zs
+    rcases hm with hm | hm
+    · cases hm
+    subst hm
+    cases M with
+    | none =>
+      simp only [Range.mem, and_true, lt, eqv] at ca ⊢
+      constructor <;> intro h <;> grind
+    | some b =>
+      have cb := pv_cmp b (h2 b rfl) X Y zs
+      rcases hM with hM | hM
+      · cases hM
+      subst hM
+      simp only [Range.mem, and_true, Bool.false_eq_true, and_false, or_false, lt, eqv] at ca cb ⊢
+      constructor <;> intro h <;> grind
+
+/-- a half-open view with at most two significant components per bound is saturated -/
+theorem pvsem_halfopen (env : Env) (he : EnvTotal env) (s : Spec Ver) (hh : HalfOpen s) (hb : BoundsIn Pv2 s) :
+    PvSem env (.ver s) := by
+  intro pv f hpv hf
+  obtain ⟨X, Y, zs, rfl, hpvv⟩ := he.py f hf
+  rw [hpv] at hpvv; cases hpvv
+  cases s with
+  | empty => simp [Spec.mem]
+  | any => simp [Spec.mem]
+  | range r =>
+    obtain ⟨h1, h2⟩ := boundsIn_range Pv2 r hb
+    exact pvsem_range r hh ⟨h1, h2, boundsIn_text_range Pv2 r hb⟩ X Y zs
+  | union rs t =>
+    have hbr := boundsIn_union Pv2 rs t hb
+    have hall : ∀ r ∈ rs, r.AllVers Pv2 := by
+      -- the cached texts of member ranges are covered by BoundsIn as well
+      obtain ⟨s', hs'⟩ := hb
+      cases s' with
+      | union rs' t' =>
+        simp only [map_union, Spec.union.injEq] at hs'
+        obtain ⟨hrs, _⟩ := hs'
+        subst hrs
+        intro r hr
+        simp only [List.mem_map] at hr
+        obtain ⟨r', _, rfl⟩ := hr
+        refine ⟨?_, ?_, ?_⟩
+        · intro m hm; simp only [Range.map, Option.map_eq_some_iff] at hm; obtain ⟨x, _, rfl⟩ := hm; exact x.2
+        · intro m hm; simp only [Range.map, Option.map_eq_some_iff] at hm; obtain ⟨x, _, rfl⟩ := hm; exact x.2
+        · intro c hc; simp only [Range.map, Option.map_eq_some_iff] at hc; obtain ⟨x, _, rfl⟩ := hc; exact x.ver.2
+      | empty => simp at hs'
+      | any => simp at hs'
+      | range _ => simp at hs'
+    simp only [Spec.mem]
+    constructor
+    · rintro ⟨r, hr, hm⟩; exact ⟨r, hr, (pvsem_range r (hh r hr) (hall r hr) X Y zs).1 hm⟩
+    · rintro ⟨r, hr, hm⟩; exact ⟨r, hr, (pvsem_range r (hh r hr) (hall r hr) X Y zs).2 hm⟩
+
+/-! ### transferring the two-component shape along `==` -/
+
+theorem seq_of_eqv_final (x y : Ver) (hx : x.isFinal = true) (hy : y.isFinal = true) (h : eqv x y) :
+    ∀ i, nth0 x.release i = nth0 y.release i := by
+  have h1 : ¬ lt x y := fun hl => hl h.2
+  have h2 : ¬ lt y x := fun hl => hl h.1
+  rw [lt_final x y hx hy] at h1
+  rw [lt_final y x hy hx] at h2
+  have he : x.epoch = y.epoch := by
+    rcases Nat.lt_trichotomy x.epoch y.epoch with h | h | h
+    · exact absurd (Or.inl h) h1
+    · exact h
+    · exact absurd (Or.inl h) h2
+  exact seq_trichotomy _ _ (fun hs => h1 (Or.inr ⟨he, hs⟩)) (fun hs => h2 (Or.inr ⟨he.symm, hs⟩))
+
+theorem pv2_of_eqv (x y : Ver) (hx : FinalV x) (hy : Pv2 y) (h : eqv x y) : Pv2 x :=
+  ⟨hx, fun i hi => by rw [seq_of_eqv_final x y hx.1 hy.1.1 h i]; exact hy.2 i hi⟩
+
+theorem Range.pv2_of_beq (x r : Range Ver) (h : x.beq r = true) (hx : x.AllVers FinalV) (hr : r.AllVers Pv2) :
+    (∀ m, x.min = some m → Pv2 m) ∧ (∀ m, x.max = some m → Pv2 m) := by
+  rcases x with ⟨xm, xM, xi, xj, xt⟩; rcases r with ⟨rm, rM, ri, rj, rt⟩
+  obtain ⟨hx1, hx2, _⟩ := hx
+  obtain ⟨hr1, hr2, _⟩ := hr
+  simp only at hx1 hx2 hr1 hr2
+  cases xm <;> cases rm <;> cases xM <;> cases rM <;> simp only [Range.beq, Bool.and_eq_true, decide_eq_true_eq, beq_iff_eq, Bool.false_eq_true, false_and, and_false] at h
+  all_goals (constructor <;> intro m hm <;> cases hm)
+  all_goals first
+    | exact pv2_of_eqv _ _ (hx1 _ rfl) (hr1 _ rfl) h.1.1.1
+    | exact pv2_of_eqv _ _ (hx2 _ rfl) (hr2 _ rfl) h.1.1.2
+    | exact pv2_of_eqv _ _ (hx1 _ rfl) (hr1 _ rfl) h.1.1
+    | exact pv2_of_eqv _ _ (hx2 _ rfl) (hr2 _ rfl) h.1.1
+
+theorem zip_mem_left {β : Type} : ∀ (xs ys : List β), xs.length = ys.length → ∀ x ∈ xs, ∃ y ∈ ys, (x, y) ∈ xs.zip ys
+  | [], _, _, x, hx => by simp at hx
+  | _ :: _, [], h, _, _ => by simp at h
+  | a :: as, b :: bs, h, x, hx => by
+    simp only [List.mem_cons] at hx
+    rcases hx with rfl | hx
+    · exact ⟨b, by simp, by simp⟩
+    · obtain ⟨y, hy, hz⟩ := zip_mem_left as bs (by simpa using h) x hx
+      exact ⟨y, by simp [hy], by simp [hz]⟩
+
+/-- the bounds of an object `==` to one with two-component bounds are two-component -/
+theorem pv2_bounds_of_beq (a b : Spec Ver) (h : a.beq b = true) (ha : a.AllVers FinalV) (hb : b.AllVers Pv2) :
+    ∀ x ∈ toL a, (∀ m, x.min = some m → Pv2 m) ∧ (∀ m, x.max = some m → Pv2 m) := by
+  cases a with
+  | empty => intro x hx; simp [toL] at hx
+  | any =>
+    intro x hx; simp only [toL, List.mem_singleton] at hx; subst hx
+    exact ⟨fun m hm => (by cases hm), fun m hm => (by cases hm)⟩
+  | range xr =>
+    intro x hx; simp only [toL, List.mem_singleton] at hx; subst hx
+    cases b with
+    | range r => exact Range.pv2_of_beq x r (by simpa [Spec.beq] using h) ha hb
+    | any =>
+      have : x.isAny = true := by simpa [Spec.beq] using h
+      rcases x with ⟨m, M, i, j, t⟩
+      cases m <;> cases M <;> simp [Range.isAny] at this
+      exact ⟨fun m hm => (by cases hm), fun m hm => (by cases hm)⟩
+    | empty => simp [Spec.beq] at h
+    | union _ _ => simp [Spec.beq] at h
+  | union xs xt =>
+    cases b with
+    | union ys yt =>
+      simp only [Spec.beq, Bool.and_eq_true, beq_iff_eq, List.all_eq_true] at h
+      intro x hx
+      simp only [toL] at hx
+      obtain ⟨y, hy, hz⟩ := zip_mem_left xs ys h.1 x hx
+      exact Range.pv2_of_beq x y (h.2 (x, y) hz) (ha.1 x hx) (hb.1 y hy)
+    | empty => simp [Spec.beq] at h
+    | any => simp [Spec.beq, Spec.isAny] at h
+    | range _ => simp [Spec.beq] at h
+
+theorem any_and_fromClause (c : Clause Ver) (s : Spec Ver) (h : fromClause c = some s) : (Spec.range {}).and s = s := by
+  rcases c with ⟨op, v, w⟩
+  cases op <;> cases w <;> simp only [fromClause, Option.some.injEq, Option.map_eq_some_iff] at h
+  all_goals first
+    | (subst h; simp [Spec.and, Range.and, Range.isSuperset, Range.isAny])
+    | (obtain ⟨mx, _, rfl⟩ := h; simp [Spec.and, Range.and, Range.isSuperset, Range.isAny])
+
+/-- what the parser builds from the clause of a two-component view is a two-component view -/
+theorem fromClause_pv2 (c : Clause Ver) (s1 s : Spec Ver) (hfc : fromClause c = some s1) (hfin : FinalV c.ver)
+    (hb : BoundsIn Pv2 s) (hbeq : s1.beq s = true) : BoundsIn Pv2 s1 := by
+  have hfb := allVers_of_boundsIn FinalV s1 (fromClause_final c hfin s1 hfc)
+  have hbounds := pv2_bounds_of_beq s1 s hbeq hfb (allVers_of_boundsIn Pv2 s hb)
+  apply boundsIn_of_allVers
+  rcases c with ⟨op, v, w⟩
+  have rvz : ∀ (e : Nat) (r : List Nat), Pv2 (Ver.releaseVersion e r) → FinalV ⟨e, r, none, none, none⟩ →
+      Pv2 ⟨e, r, none, none, none⟩ := by
+    intro e r h hf
+    refine ⟨hf, fun i hi => ?_⟩
+    have := h.2 i hi
+    simp only [Ver.releaseVersion] at this
+    rwa [nth0_append_zero] at this
+  have hv : v = ⟨v.epoch, v.release, none, none, none⟩ := by
+    rcases v with ⟨e, r, pre, post, dev⟩
+    have := hfin.1
+    cases pre <;> cases post <;> cases dev <;> simp [Ver.isFinal] at this ⊢
+  cases op <;> cases w <;> simp only [fromClause, Option.some.injEq, Option.map_eq_some_iff] at hfc
+  all_goals first
+    | (subst hfc
+       simp only [toL, List.mem_singleton, forall_eq, List.mem_cons, List.mem_nil_iff, or_false, forall_eq_or_imp] at hbounds
+       simp only [Spec.AllVers, Range.AllVers, List.mem_cons, List.mem_nil_iff, or_false, forall_eq_or_imp, forall_eq]
+       simp at hbounds ⊢
+       exact hbounds)
+    | (obtain ⟨mx, hmx, rfl⟩ := hfc
+       simp only [toL, List.mem_singleton, forall_eq, List.mem_cons, List.mem_nil_iff, or_false, forall_eq_or_imp] at hbounds
+       simp only [Spec.AllVers, Range.AllVers, List.mem_cons, List.mem_nil_iff, or_false, forall_eq_or_imp, forall_eq]
+       simp at hbounds ⊢
+       have hpv : Pv2 v := by
+         first
+           | exact hbounds.1
+           | (rw [hv]; exact rvz _ _ hbounds.1 (by rw [← hv]; exact hfin))
+       first
+         | exact ⟨hbounds.1, hbounds.2, hpv⟩
+         | exact ⟨⟨hbounds.1, hbounds.2⟩, hpv⟩)
+
+/-- the clause of a two-component view, when it is not a wildcard, is over a two-component version -/
+theorem fsClause_pv2_plain (s : Spec Ver) (c : Clause Ver) (hb : BoundsIn Pv2 s) (hc : fsClause? s = some c)
+    (hw : c.wild = false) : Pv2 c.ver := by
+  have hall := allVers_of_boundsIn Pv2 s hb
+  cases s with
+  | empty => simp [fsClause?] at hc
+  | any => simp [fsClause?] at hc
+  | range r =>
+    obtain ⟨h1, h2, h3⟩ := hall
+    simp only [fsClause?, Range.strClauses] at hc
+    cases ht : r.text with
+    | some c0 =>
+      simp only [ht, List.head?_cons, Option.some.injEq] at hc
+      subst hc; exact h3 _ ht
+    | none =>
+      simp only [ht] at hc
+      cases hm : r.min <;> cases hM : r.max <;> simp only [hm, hM] at hc
+      · simp at hc
+      · simp at hc; subst hc; exact h2 _ hM
+      · simp at hc; subst hc; exact h1 _ hm
+      · rename_i a b
+        split at hc
+        · simp at hc; subst hc; exact h1 _ hm
+        · split at hc
+          · simp [twoClauses] at hc; subst hc; exact h1 _ hm
+          · split at hc
+            · simp at hc; subst hc; exact h1 _ hm
+            · simp [twoClauses] at hc; subst hc; exact h1 _ hm
+  | union rs t =>
+    obtain ⟨hrs, ht⟩ := hall
+    simp only [fsClause?, unionSimplified] at hc
+    cases t with
+    | some c0 => simp at hc; subst hc; exact ht _ rfl
+    | none =>
+      simp only at hc
+      split at hc
+      · rename_i left right
+        split at hc
+        · rename_i lm rm _ _ hlmax _
+          split at hc
+          · simp at hc; subst hc; exact (hrs left (by simp)).2.1 _ hlmax
+          · split at hc
+            · split at hc
+              · cases hc
+              · simp only [Option.map_eq_some_iff] at hc
+                obtain ⟨p, _, rfl⟩ := hc
+                simp at hw
+            · cases hc
+        · cases hc
+      · cases hc
+
+theorem list_len_two {β : Type} : ∀ (l : List β), l.length = 2 → ∃ a b, l = [a, b]
+  | [a, b], _ => ⟨a, b, rfl⟩
+  | [], h => by simp at h
+  | [_], h => by simp at h
+  | _ :: _ :: _ :: _, h => by simp at h
+
+/-- a view that renders as `~=V`, `==V.*` or `!=V.*` is half-open -/
+theorem render_halfopen (s : Spec Ver) (c : Clause Ver) (hn : C06.Nice s) (hc : fsClause? s = some c)
+    (hr : (c.wild = true ∧ (c.op = .eq ∨ c.op = .ne)) ∨ c.op = .compat) : HalfOpen s := by
+  have flags : ∀ x r : Range Ver, x.beq r = true → x.min.isSome = true → x.max.isSome = true →
+      x.incMin = true → x.incMax = false → HalfOpenR r := by
+    intro x r hb h1 h2 h3 h4
+    rcases x with ⟨xm, xM, xi, xj, xt⟩; rcases r with ⟨rm, rM, ri, rj, rt⟩
+    simp only at h3 h4; subst h3; subst h4
+    cases xm <;> cases xM <;> cases rm <;> cases rM <;> simp [Range.beq] at hb h1 h2
+    exact ⟨Or.inr (by simpa using hb.1.2.symm), Or.inr (by simpa using hb.2.symm)⟩
+  cases s with
+  | empty => simp [fsClause?] at hc
+  | any => simp [fsClause?] at hc
+  | range r =>
+    simp only [fsClause?, Range.strClauses] at hc
+    cases ht : r.text with
+    | some c0 =>
+      simp only [ht, List.head?_cons, Option.some.injEq] at hc
+      subst hc
+      obtain ⟨x, hx, hb⟩ := hn.text c0 ht
+      rcases c0 with ⟨op, v, w⟩
+      simp only at hr
+      rcases hr with ⟨hw, ho | ho⟩ | ho
+      · subst hw; subst ho
+        simp only [fromClause, Option.map_eq_some_iff] at hx
+        obtain ⟨mx, _, hx⟩ := hx
+        cases hx
+        exact flags _ r hb rfl rfl rfl rfl
+      · subst hw; subst ho
+        simp only [fromClause, Option.map_eq_some_iff] at hx
+        obtain ⟨mx, _, hx⟩ := hx
+        cases hx
+      · subst ho
+        cases w <;>
+          (simp only [fromClause, Option.map_eq_some_iff] at hx
+           obtain ⟨mx, _, hx⟩ := hx
+           cases hx
+           exact flags _ r hb rfl rfl rfl rfl)
+    | none =>
+      simp only [ht] at hc
+      cases hm : r.min <;> cases hM : r.max <;> simp only [hm, hM] at hc
+      · simp at hc
+      · simp at hc; subst hc; rcases hr with ⟨hw, _⟩ | ho
+        · cases hw
+        · revert ho; cases r.incMax <;> simp
+      · simp at hc; subst hc; rcases hr with ⟨hw, _⟩ | ho
+        · cases hw
+        · revert ho; cases r.incMin <;> simp
+      · rename_i a b
+        split at hc
+        · simp at hc; subst hc; rcases hr with ⟨hw, _⟩ | ho
+          · cases hw
+          · cases ho
+        · split at hc
+          · simp [twoClauses] at hc; subst hc; rcases hr with ⟨hw, _⟩ | ho
+            · cases hw
+            · revert ho; cases r.incMin <;> simp
+          · rename_i hflags
+            split at hc
+            · simp only [Bool.or_eq_true, Bool.not_eq_true', not_or, Bool.not_eq_false] at hflags
+              exact ⟨Or.inr hflags.1, Or.inr (by simpa using hflags.2)⟩
+            · simp [twoClauses] at hc; subst hc; rcases hr with ⟨hw, _⟩ | ho
+              · cases hw
+              · revert ho; cases r.incMin <;> simp
+  | union rs t =>
+    simp only [fsClause?, unionSimplified] at hc
+    cases t with
+    | some c0 =>
+      simp at hc; subst hc
+      obtain ⟨ys, yt, hy, hb⟩ := hn.text.2 c0 rfl
+      rcases c0 with ⟨op, v, w⟩
+      simp only at hr
+      rcases hr with ⟨hw, ho | ho⟩ | ho
+      · subst hw; subst ho
+        simp only [fromClause, Option.map_eq_some_iff] at hy
+        obtain ⟨mx, _, hy⟩ := hy
+        cases hy
+      · subst hw; subst ho
+        simp only [fromClause, Option.map_eq_some_iff] at hy
+        obtain ⟨mx, _, hy⟩ := hy
+        cases hy
+        -- the two ranges of `!=p.*`, matched against the union's own
+        simp only [Spec.beq, List.length_cons, List.length_nil, Bool.and_eq_true, beq_iff_eq, List.all_eq_true] at hb
+        obtain ⟨hlen, hall⟩ := hb
+        obtain ⟨left, right, rfl⟩ := list_len_two rs (by omega)
+        have hl := hall ({ max := some (Ver.releaseVersion v.epoch v.release) }, left) (by simp)
+        have hr' := hall ({ min := some mx, incMin := true }, right) (by simp)
+        intro r hrm
+        simp only [List.mem_cons, List.mem_nil_iff, or_false] at hrm
+        rcases hrm with rfl | rfl
+        · rcases r with ⟨rm, rM, ri, rj, rt⟩
+          cases rm <;> cases rM <;> simp [Range.beq] at hl
+          exact ⟨Or.inl rfl, Or.inr (by simpa using hl.2.symm)⟩
+        · rcases r with ⟨rm, rM, ri, rj, rt⟩
+          cases rm <;> cases rM <;> simp [Range.beq] at hr'
+          exact ⟨Or.inr (by simpa using hr'.1.2.symm), Or.inl rfl⟩
+      · subst ho
+        cases w <;>
+          (simp only [fromClause, Option.map_eq_some_iff] at hy
+           obtain ⟨mx, _, hy⟩ := hy
+           cases hy)
+    | none =>
+      simp only at hc
+      split at hc
+      · rename_i left right
+        split at hc
+        · rename_i lm rm hlmin hrmax hlmax hrmin
+          split at hc
+          · simp at hc; subst hc
+            rcases hr with ⟨hw, _⟩ | ho
+            · cases hw
+            · cases ho
+          · split at hc
+            · rename_i hflags
+              simp only [Bool.and_eq_true, Bool.not_eq_true'] at hflags
+              intro r hrm
+              simp only [List.mem_cons, List.mem_nil_iff, or_false] at hrm
+              rcases hrm with rfl | rfl
+              · exact ⟨Or.inl hlmin, Or.inr hflags.1⟩
+              · exact ⟨Or.inr hflags.2, Or.inl hrmax⟩
+            · cases hc
+        · cases hc
+      · cases hc
+
+/-- the clause parser only accepts `.*` after `==` and `!=` -/
+theorem parseClauseL_wild_op (l : List Char) (c : Clause Ver) (h : SpecParse.parseClauseL l = some c)
+    (hw : c.wild = true) : c.op = .eq ∨ c.op = .ne := by
+  unfold SpecParse.parseClauseL at h
+  split at h
+  · cases h
+  · rename_i op rest _
+    simp only at h
+    generalize SpecParse.stripWild rest = bw at h
+    obtain ⟨body, w⟩ := bw
+    simp only at h
+    split at h
+    · cases h
+    · rename_i hcond
+      simp only [Option.bind_eq_some_iff] at h
+      obtain ⟨v, _, hv⟩ := h
+      split at hv
+      · cases hv
+      · simp only [Option.some.injEq] at hv
+        subst hv
+        simp only at hw
+        subst hw
+        simp only [Bool.true_and, Bool.not_eq_true', Bool.not_eq_false] at hcond
+        simpa using hcond
+
 /-- a python_version atom is normalised consistently, given the lexing facts -/
 theorem normGood_of_lex (env : Env) (he : EnvTotal env) (a : Atom) (c : Clause Ver)
     (hN : ∀ ns, normalizePythonVersion a = some ns → NormShape a c ns)
     (hw : a.WF) (hname : a.name = "python_version") (hop : a.op ≠ .in_ ∧ a.op ≠ .notIn)
-    (hl : C11.LexOne a c) (hcoh : a.Coherent env) (hnice : a.spec.Canon) (hpv : PvSem env a.spec) :
+    (hl : C11.LexOne a c) (hcoh : a.Coherent env) (hnice : a.spec.Canon)
+    (hpv : (c.wild = true ∨ c.op = .compat ∨ ∃ i, 2 ≤ i ∧ nth0 c.ver.release i ≠ 0) → PvSem env a.spec) :
     NormGood env a := by
   intro _ ns hns
   have hvl : versionLikeNames.contains a.name = true := by rw [hname]; decide
@@ -467,11 +896,12 @@ theorem normGood_of_lex (env : Env) (he : EnvTotal env) (a : Atom) (c : Clause V
   obtain ⟨s0, hs0, hspec⟩ := spec_of_lex a c hw hvl hop hl
   unfold Atom.Coherent at hcoh
   rw [hname] at hcoh
-  rcases hN ns hns with rfl | ⟨A, B, sn, hwild, hnc, he0, hfin, hseq, hsn, rfl⟩
+  rcases hN ns hns with ⟨rfl, hreason⟩ | ⟨A, B, sn, hwild, hnc, he0, hfin, hseq, hsn, rfl⟩
   · refine ⟨?_, hnice, ?_⟩
     · rw [hcoh, hspec, holds_ver, holds_ver, hf, hpvv]
-      rw [hspec] at hpv
-      exact (decide_eq_decide.2 (hpv _ _ hpvv hf)).symm
+      have hpv' := hpv hreason
+      rw [hspec] at hpv'
+      exact (decide_eq_decide.2 (hpv' _ _ hpvv hf)).symm
     · rw [hspec]; exact hvlf
   · refine ⟨?_, ?_, hvlf⟩
     · rw [hcoh, hspec, holds_ver, holds_ver, hf, hpvv]
@@ -604,20 +1034,42 @@ theorem fromSpecOk_of_lex (env : Env) (he : EnvTotal env) (hN : LexNormOk) : Fro
                     rcases h with rfl | rfl <;> simp at hvl
                 simp only [a', h1, if_false, h2, Bool.false_eq_true, hvl, if_true]
                 have hnice' : (ASpec.ver ((Spec.range {}).and s1)).Canon := C06.nice_and _ _ nice_anyRange hnice1
-                have hpvs' : name = "python_version" → PvSem env (.ver ((Spec.range {}).and s1)) := by
-                  intro hnm pv f hpv hf
-                  rw [hmemAll, hmemAll]
-                  exact hpvs hnm pv f hpv hf
-                refine ⟨hcoh, hnice', ?_, hpvs'⟩
                 by_cases hnm : name = "python_version"
                 · have hfsC : fsC name c = c := by
                     unfold fsC fsPad; subst hnm; simp
-                  refine normGood_of_lex env he a' (fsC name c) ?_ hwf hnm hopn ⟨halts, hone⟩ hcoh hnice' (hpvs' hnm)
-                  intro ns hns
-                  rw [hfsC]
-                  subst hnm
-                  exact hN c _ ns (fsClause_final s c hn hc) hwf hns
-                · exact fun h => absurd h hnm
+                  have hfc1 : fromClause c = some s1 := by rw [← hfsC]; exact hfc'
+                  have hs01 : s0 = s1 := by rw [hfc] at hfc1; exact Option.some.inj hfc1
+                  have hbeq' : s1.beq s = true := by
+                    rw [← hs01, ← any_and_fromClause c s0 hfc]; exact hbeq
+                  have hpb : BoundsIn Pv2 ((Spec.range {}).and s1) := by
+                    rw [any_and_fromClause c s1 hfc1]
+                    exact fromClause_pv2 c s1 s hfc1 (fsClause_final s c hn hc) (hpvs hnm) hbeq'
+                  refine ⟨hcoh, hnice', ?_, fun _ => hpb⟩
+                  refine normGood_of_lex env he a' (fsC name c) ?_ hwf hnm hopn ⟨halts, hone⟩ hcoh hnice' ?_
+                  · intro ns hns
+                    rw [hfsC]
+                    subst hnm
+                    exact hN c _ ns (fsClause_final s c hn hc) hwf hns
+                  · -- the unchanged case: the view is half-open over two-component bounds, hence saturated
+                    rw [hfsC]
+                    intro hreason
+                    have hsat : PvSem env (.ver s) := by
+                      by_cases hwc : (c.wild = true ∧ (c.op = .eq ∨ c.op = .ne)) ∨ c.op = .compat
+                      · exact pvsem_halfopen env he s (render_halfopen s c hn hc hwc) (hpvs hnm)
+                      · exfalso
+                        have hwf' : c.wild = false := by
+                          cases hw : c.wild
+                          · rfl
+                          · exact absurd (Or.inl ⟨hw, parseClauseL_wild_op _ c (by rw [← hfsC]; exact hone) hw⟩) hwc
+                        have hncomp : c.op ≠ .compat := fun h => hwc (Or.inr h)
+                        rcases hreason with h | h | ⟨i, hi, hne⟩
+                        · rw [hwf'] at h; cases h
+                        · exact hncomp h
+                        · exact hne ((fsClause_pv2_plain s c (hpvs hnm) hc hwf').2 i hi)
+                    intro pv f hpv hf
+                    rw [hmemAll, hmemAll]
+                    exact hsat pv f hpv hf
+                · refine ⟨hcoh, hnice', fun h => absurd h hnm, fun h => absurd h hnm⟩
               refine ⟨hgood, ?_⟩
               have := hcoh
               unfold Atom.Coherent at this
